@@ -320,6 +320,7 @@ def handleBox (args impl : List String) : String :=
   match args with
   | "conv" :: a => handleConv a impl
   | "poly" :: a => handlePoly a impl
+  | "polystale" :: a => handlePoly a impl
   | "polyrot" :: a => handlePolyRot a impl
   | "eq" :: a => handleEq a impl
   | "beq" :: a => handleBeq a impl
